@@ -197,15 +197,22 @@ def _mlist(ps, ns, env):
     return False
 
 
+class Bindings(dict):
+    """the bindings of a successful match: truthy even when the pattern has no metavariables"""
+
+    def __bool__(self):
+        return True
+
+
 def match_expr(node, pattern, env=None):
     """Match an expression node against a pattern; returns the bindings dict or None."""
-    e = dict(env or {})
+    e = Bindings(env or {})
     return e if _m(_parse("expr", pattern), node, e) else None
 
 
 def match_stmts(stmts, pattern, env=None):
     """Match a statement list (e.g. block['stmts']) against a pattern with optional `__rest;`."""
-    e = dict(env or {})
+    e = Bindings(env or {})
     return e if _mlist(_parse("stmts", pattern), stmts, e) else None
 
 
@@ -261,8 +268,17 @@ def local_fns(ast, path):
 
 
 def _callee_name(e):
-    """Name of a locally-resolvable callee: `f(..)`, `f::<T>(..)`, `Self::f(..)`."""
-    if not isinstance(e, dict) or e.get("t") != "Call":
+    """Name of a locally-resolvable callee: `f(..)`, `f::<T>(..)`, `Self::f(..)`, `self.f(..)`."""
+    if not isinstance(e, dict):
+        return None
+    if e.get("t") == "MethodCall":
+        r = e["receiver"]
+        while isinstance(r, dict) and r.get("t") in ("Paren", "Reference"):
+            r = r["expr"]
+        if _ident(r) == "self":
+            return e["method"]
+        return None
+    if e.get("t") != "Call":
         return None
     f = e["func"]
     while isinstance(f, dict) and f.get("t") == "Paren":
@@ -277,48 +293,228 @@ def _callee_name(e):
     return None
 
 
-def inline_helpers(ast, path, node, depth=2, exprs=False, keep=()):
-    """Copy of `node` in which calls to small local helper functions are replaced by their bodies:
-    statement-position calls of helpers without tail value (statements spliced), and calls of helpers whose body is one
-    expression (substituted).  Helpers containing `return`, `?`, loops over their own recursion or non-trivial argument
-    expressions are left alone.  Spans of the inlined statements are the helper's own."""
-    fns = local_fns(ast, path)
-
-    def params(fn):
-        ps = []
-        for p in fn["sig"]["inputs"]:
-            if p["t"] != "Arg" or p["pat"]["t"] != "PIdent":
+def _call_args(e, fn):
+    """(params, args) aligned, or None.  Handles `self.f(a)` and `Self::f(self, a)` for methods."""
+    ins = list(fn["sig"]["inputs"])
+    ps = []
+    has_recv = bool(ins) and ins[0]["t"] == "Receiver"
+    if has_recv:
+        ins = ins[1:]
+    for p in ins:
+        if p["t"] != "Arg" or p["pat"]["t"] != "PIdent":
+            return None
+        ps.append(p["pat"]["name"] + ("\0mut" if p["pat"].get("mut") else ""))
+    if e.get("t") == "MethodCall":
+        if not has_recv:
+            return None
+        args = list(e["args"])
+    else:
+        args = list(e["args"])
+        if has_recv:
+            if not args or _ident(_strip_ref(args[0])) != "self":
                 return None
-            ps.append(p["pat"]["name"])
-        return ps
+            args = args[1:]
+    if len(ps) != len(args):
+        return None
+    return ps, args
 
-    def try_expr(e):
+
+def _strip_ref(a):
+    while isinstance(a, dict) and a.get("t") in ("Paren", "Reference"):
+        a = a["expr"]
+    return a
+
+
+def _idents_in(node):
+    from common import walk
+    out = set()
+    for n in walk(node):
+        if n.get("t") == "PIdent":
+            out.add(n["name"])
+        i = _ident(n)
+        if i:
+            out.add(i)
+    return out
+
+
+def _rename_pats(node, mapping):
+    """rename binding occurrences (PIdent) as well as uses"""
+    if isinstance(node, dict):
+        if node.get("t") == "PIdent" and node["name"] in mapping:
+            return {**{k: (_rename_pats(v, mapping) if isinstance(v, (dict, list)) else v) for k, v in node.items()}, "name": mapping[node["name"]]}
+        nid = _ident(node)
+        if nid is not None and nid in mapping:
+            seg = dict(node["path"]["segs"][0], id=mapping[nid])
+            return {**node, "path": {**node["path"], "name": mapping[nid], "s": mapping[nid], "segs": [seg]}}
+        return {k: (_rename_pats(v, mapping) if isinstance(v, (dict, list)) else v) for k, v in node.items()}
+    if isinstance(node, list):
+        return [_rename_pats(x, mapping) for x in node]
+    return node
+
+
+def _count_uses(node, name):
+    from common import walk
+    return sum(1 for n in walk(node) if _ident(n) == name)
+
+
+def inline_helpers(ast, path, node, depth=2, exprs=False, keep=()):
+    """Copy of `node` in which calls to local helper functions (free fns, `Self::f`, `self.f(..)`) are replaced by their bodies.
+    Statement positions (`f(..);`, `let x = f(..);`, `x = f(..);`, a block's tail `f(..)`, and the `?` forms when the helper ends in
+    `Ok(e)`): the helper's statements are spliced in (its locals renamed when they clash with the caller's), complex arguments are
+    bound to fresh locals.  Expression positions (with exprs=True): helpers whose body is one expression.  Helpers with early
+    `return`, and recursive ones, are left alone.  Spans of the inlined statements are the helper's own."""
+    fns = local_fns(ast, path)
+    caller_names = _idents_in(node)
+    counter = [0]
+
+    def prepare(e, want_value):
+        """-> (stmts, tail expr or None) for call expression e, or None"""
         name = _callee_name(e)
-        if name is None or name not in fns:
+        if name is None or name not in fns or name in keep:
             return None
         fn = fns[name]
-        ps = params(fn)
-        st = fn["body"]["stmts"]
-        if ps is None or len(ps) != len(e["args"]) or not all(_simple_arg(a) for a in e["args"]):
+        if fn is node or any(x is fn for x in ()):
             return None
-        if len(st) == 1 and st[0]["t"] == "ExprStmt" and not st[0]["semi"] and not _has(st[0], ("Return", "Try")):
-            return _subst(st[0]["expr"], dict(zip(ps, e["args"])))
+        pa = _call_args(e, fn)
+        if pa is None:
+            return None
+        ps, args = pa
+        muts = {p_.split("\0")[0] for p_ in ps if p_.endswith("\0mut")}
+        ps = [p_.split("\0")[0] for p_ in ps]
+        body = fn["body"]
+        if _has(body, ("Return",)) or _has(body, ("Closure",)) and False:
+            return None
+        # recursion guard
+        from common import walk
+        if any(_callee_name(n) == name for n in walk(body)):
+            return None
+        st = list(body["stmts"])
+        tail = None
+        if st and st[-1]["t"] == "ExprStmt" and not st[-1]["semi"]:
+            if st[-1]["expr"].get("t") in ("If", "Match", "While", "ForLoop", "Loop", "Unsafe", "BlockExpr") and not want_value and fn["sig"]["output"] is None:
+                pass
+            else:
+                tail = st[-1]["expr"]
+                st = st[:-1]
+        if want_value and tail is None:
+            return None
+        # rename clashing locals of the helper
+        locals_ = set()
+        for n in walk(body):
+            if n.get("t") == "PIdent":
+                locals_.add(n["name"])
+        clash = {l: f"{l}__inl" for l in locals_ if l in caller_names and l not in ps}
+        mapping = {}
+        pre = []
+        def place_base(a_):
+            """`*x`, `x.f.g`, `(*x).f`: the base identifier of a place read, or None"""
+            a0 = _strip_ref(a_)
+            while isinstance(a0, dict):
+                if a0.get("t") == "Unary" and a0.get("op") == "*":
+                    a0 = _strip_ref(a0["expr"])
+                elif a0.get("t") == "Field":
+                    a0 = _strip_ref(a0["base"])
+                else:
+                    break
+            return _ident(a0)
+        bases = [place_base(a_) for a_ in args]
+        for i_, (p_, a_) in enumerate(zip(ps, args)):
+            stable_place = bases[i_] is not None and bases[i_] != "self" and bases.count(bases[i_]) == 1 and not _has(_strip_ref(a_), ("Call", "MethodCall", "Index"))
+            if p_ not in muts and (_simple_arg(a_) or stable_place or (_pure(_strip_ref(a_)) and _count_uses(body, p_) <= 1)):
+                mapping[p_] = a_
+            else:
+                counter[0] += 1
+                fresh = f"{p_}__arg{counter[0]}"
+                pre.append({"t": "Local", "sp": a_["sp"], "attrs": [], "pat": {"t": "PIdent", "name": fresh, "mut": p_ in muts, "by_ref": False, "sub": None, "sp": a_["sp"]},
+                            "init": a_, "else": None})
+                mapping[p_] = {"t": "PathExpr", "sp": a_["sp"], "qself": None,
+                               "path": {"t": "Path", "global": False, "name": fresh, "s": fresh, "sp": a_["sp"], "segs": [{"id": fresh, "args": None}]}}
+        if clash:
+            st = _rename_pats(st, clash)
+            tail = _rename_pats(tail, clash) if tail is not None else None
+        st = _subst(st, mapping)
+        tail = _subst(tail, mapping) if tail is not None else None
+        return pre + st, tail
+
+    def as_call(e):
+        """strip `?` : returns (call, tried?)"""
+        if isinstance(e, dict) and e.get("t") == "Try":
+            return e["expr"], True
+        return e, False
+
+    def unwrap_ok(tail):
+        t = tail
+        if isinstance(t, dict) and t.get("t") == "Call" and _ident(t["func"]) == "Ok" and len(t["args"]) == 1:
+            return t["args"][0]
         return None
 
-    def try_stmts(e):
-        name = _callee_name(e)
-        if name is None or name not in fns:
+    def splice_stmt(s_, d):
+        """-> replacement statement list or None"""
+        if s_["t"] == "ExprStmt":
+            e = s_["expr"]
+            call, tried = as_call(e)
+            if isinstance(call, dict) and call.get("t") == "Assign":
+                c2, tr2 = as_call(call["right"])
+                r = prepare(c2, True) if _callee_name(c2) else None
+                if r is not None:
+                    st, tail = r
+                    if tr2:
+                        tail = unwrap_ok(tail)
+                        if tail is None:
+                            return None
+                    return st + [{**s_, "expr": {**call, "right": tail}}]
+                return None
+            if isinstance(call, dict) and call.get("t") == "Return" and call.get("expr") is not None:
+                c2, tr2 = as_call(call["expr"])
+                if tr2:
+                    return None
+                r = prepare(c2, True) if _callee_name(c2) else None
+                if r is not None:
+                    st, tail = r
+                    return st + [{**s_, "expr": {**call, "expr": tail}}]
+                return None
+            if _callee_name(call) is None:
+                return None
+            if s_["semi"] or True:
+                r = prepare(call, False)
+                if r is not None:
+                    st, tail = r
+                    if tried:
+                        # `f(..)?;` : the helper must end in Ok(..)
+                        if tail is None or unwrap_ok(tail) is None:
+                            return None
+                        tail = unwrap_ok(tail)
+                        if _strip_ref(tail).get("t") == "Tuple" and not _strip_ref(tail)["elems"]:
+                            tail = None
+                    if tail is not None:
+                        st = st + [{"t": "ExprStmt", "sp": tail["sp"], "expr": tail, "semi": s_["semi"]}]
+                    return st
             return None
-        fn = fns[name]
-        ps = params(fn)
-        st = fn["body"]["stmts"]
-        if ps is None or len(ps) != len(e["args"]) or not all(_simple_arg(a) for a in e["args"]):
+        if s_["t"] == "Local" and s_.get("init") is not None and s_.get("else") is None:
+            call, tried = as_call(s_["init"])
+            if _callee_name(call) is None:
+                return None
+            r = prepare(call, True)
+            if r is None:
+                return None
+            st, tail = r
+            if tried:
+                tail = unwrap_ok(tail)
+                if tail is None:
+                    return None
+            return st + [{**s_, "init": tail}]
+        return None
+
+    def try_expr(e):
+        r = prepare(e, True)
+        if r is None:
             return None
-        if fn["sig"]["output"] is not None or _has(fn["body"], ("Return", "Try")):
+        st, tail = r
+        if st:
             return None
-        if st and st[-1]["t"] == "ExprStmt" and not st[-1]["semi"] and st[-1]["expr"].get("t") not in ("If", "Match", "While", "ForLoop", "Loop", "Unsafe", "BlockExpr"):
+        if _has(tail, ("Try",)):
             return None
-        return _subst(st, dict(zip(ps, e["args"])))
+        return {"t": "Paren", "sp": tail["sp"], "expr": tail} if tail.get("t") in ("Binary", "Cast", "Unary", "If", "Match") else tail
 
     def rec(n, d):
         if isinstance(n, list):
@@ -328,17 +524,13 @@ def inline_helpers(ast, path, node, depth=2, exprs=False, keep=()):
         if n.get("t") == "Block":
             out = []
             for s_ in n["stmts"]:
-                if d > 0 and s_["t"] == "ExprStmt":
-                    e = s_["expr"]
-                    while isinstance(e, dict) and e.get("t") in ("Paren", "Unsafe") and False:
-                        e = e
-                    sp = try_stmts(e) if _callee_name(e) not in keep else None
-                    if sp is not None:
-                        out.extend(rec(sp, d - 1))
-                        continue
+                sp = splice_stmt(s_, d) if d > 0 else None
+                if sp is not None:
+                    out.extend(rec({"t": "Block", "stmts": sp, "sp": n["sp"]}, d - 1)["stmts"])
+                    continue
                 out.append(rec(s_, d))
             return {**n, "stmts": out}
-        if exprs and n.get("t") == "Call" and d > 0 and _callee_name(n) not in keep:
+        if exprs and n.get("t") in ("Call", "MethodCall") and d > 0 and _callee_name(n) is not None:
             r = try_expr(n)
             if r is not None:
                 return rec(r, d - 1)
